@@ -147,6 +147,18 @@ func (r *Run) Main() int {
 		}
 		return 0
 	}
+	if os.Getenv("GOVC_AUTOINLINE") == "list" {
+		r.eng.autoInline(nil)
+		var ns []string
+		for f := range r.eng.autoSet {
+			ns = append(ns, f.String())
+		}
+		sort.Strings(ns)
+		for _, n := range ns {
+			fmt.Println("AUTOINLINE", n)
+		}
+		return 0
+	}
 	fns := r.eng.FunctionsFor(r.prop)
 	if r.prop == "C08" {
 		r.eng.sweepMode = true
